@@ -5,6 +5,7 @@ package c10
 import (
 	"bytes"
 	"fmt"
+	"sort"
 	"testing"
 
 	"gitlab.com/gomidi/midi/v2/smf"
@@ -58,7 +59,7 @@ func run(c Case) (res ev.Result) {
 		if short {
 			mode = "write-short"
 		}
-		for k := 0; k <= len(file); k++ {
+		for _, k := range offsets(file) {
 			if !want(mode, k) {
 				continue
 			}
@@ -76,7 +77,6 @@ func run(c Case) (res ev.Result) {
 			if k < len(file) {
 				if werr == nil {
 					res.Violation = fmt.Sprintf("%s: destination failed after %d of %d bytes but WriteTo returned nil error (size %d, accepted %d)", mode, k, len(file), size, len(w.Accepted))
-					c.OnlyOffset, c.OnlyMode = k, mode
 					return
 				}
 			} else {
@@ -97,7 +97,7 @@ func run(c Case) (res ev.Result) {
 		if together {
 			mode = "read-together"
 		}
-		for k := 0; k <= len(file); k++ {
+		for _, k := range offsets(file) {
 			if !want(mode, k) {
 				continue
 			}
@@ -122,10 +122,65 @@ func run(c Case) (res ev.Result) {
 	return
 }
 
+// offsets returns every fault offset 0..len(file) for files up to 1500 bytes; for larger files
+// every offset within 40 bytes of the start, of every chunk header and of the end, around the
+// usual buffer thresholds, and a stride over the rest.
+func offsets(file []byte) []int {
+	n := len(file)
+	if n <= 1500 {
+		out := make([]int, 0, n+1)
+		for i := 0; i <= n; i++ {
+			out = append(out, i)
+		}
+		return out
+	}
+	set := map[int]bool{}
+	add := func(x int) {
+		if x >= 0 && x <= n {
+			set[x] = true
+		}
+	}
+	for i := 0; i <= 40; i++ {
+		add(i)
+		add(n - i)
+	}
+	for i := 0; i+4 <= n; i++ {
+		if string(file[i:i+4]) == "MTrk" {
+			for d := -12; d <= 40; d++ {
+				add(i + d)
+			}
+			for _, edge := range []int{512, 4096, 8192, 32768, 65536} {
+				for d := -2; d <= 10; d++ {
+					add(i + 8 + edge + d)
+					add(i + edge + d)
+				}
+			}
+		}
+	}
+	for _, edge := range []int{512, 4096, 8192, 32768, 65536} {
+		for d := -2; d <= 2; d++ {
+			add(edge + d)
+		}
+	}
+	for i := 0; i <= n; i += n/150 + 1 {
+		add(i)
+	}
+	out := make([]int, 0, len(set))
+	for x := range set {
+		out = append(out, x)
+	}
+	sort.Ints(out)
+	return out
+}
+
 var files = ev.NewCheck("C10", "files",
-	"rapid: files from the C01 API-history generator (1..5 tracks, payloads <= 300 bytes); per file a write fault at EVERY byte offset (short write (k,err) and refused write (0,err)) and a sticky non-EOF read fault at EVERY byte offset (error alone after k bytes, and together with the last bytes); oracle: fault before the end => non-nil error (read: and no value), no fault => nil error, size == bytes accepted == file length; the per-fault-point counts are in part 'fault-points'",
+	"rapid: files from the C01 API-history generator (1..5 tracks, payloads <= 300 bytes, in one case of eight up to 70000 bytes; files > 1500 bytes use every offset near the start, every chunk header, the buffer thresholds and the end plus a stride instead of every offset); per file a write fault at EVERY byte offset (short write (k,err) and refused write (0,err)) and a sticky non-EOF read fault at EVERY byte offset (error alone after k bytes, and together with the last bytes); oracle: fault before the end => non-nil error (read: and no value), no fault => nil error, size == bytes accepted == file length; the per-fault-point counts are in part 'fault-points'",
 	func(t *rapid.T) Case {
-		return Case{API: gen.API(t, gen.APIOpts{MaxTracks: 5, MaxOps: 6, MaxPayload: 300, MaxDelta: 0x0FFFFFFF}), OnlyOffset: -1}
+		mp := 300
+		if rapid.IntRange(0, 7).Draw(t, "bigPayloads?") == 0 {
+			mp = 70000 // track bodies beyond the 4 KiB / 64 KiB thresholds of buffered writers and readers
+		}
+		return Case{API: gen.API(t, gen.APIOpts{MaxTracks: 5, MaxOps: 6, MaxPayload: mp, MaxDelta: 0x0FFFFFFF}), OnlyOffset: -1}
 	}, run)
 
 func TestPropFiles(t *testing.T) { files.Rapid(t, 40, 400) }
